@@ -21,8 +21,10 @@ def gen_ops(rng, n, pooled_p):
             ops.append(("np:%d" if rng.random() < pooled_p else "nh:%d") % rng.randrange(S))
         elif r < 0.44:
             ops.append("as:%s:%s" % (loc(rng, 0.45), loc(rng, 0.35)))
-        elif r < 0.50:
+        elif r < 0.485:
             ops.append("al:%s:%s" % (loc(rng, 0.30), loc(rng, 0.25)))
+        elif r < 0.50:
+            ops.append("ne:%s" % loc(rng, 0.25))
         elif r < 0.64:
             ops.append("rs:%s" % loc(rng, 0.25))
         elif r < 0.76:
@@ -59,8 +61,10 @@ def gen_worker(rng, n):
             ops.append("rs:%s" % loc(rng, 0.15))
         elif r < 0.58:
             ops.append("cc:%s:%s" % (loc(rng, 0.2), loc(rng, 0.4)))
-        elif r < 0.66:
+        elif r < 0.64:
             ops.append("al:%s:%s" % (loc(rng, 0.2), loc(rng, 0.3)))
+        elif r < 0.66:
+            ops.append("ne:%s" % loc(rng, 0.2))
         elif r < 0.80:
             ops.append(("np:%d" if rng.random() < 0.7 else "nh:%d") % rng.randrange(S))
         elif r < 0.88:
@@ -119,7 +123,7 @@ class CHECK(vlib.Check):
                 "util/ObjectPool.h: ObtainObject/ObtainObjectAux, ReleaseObject (reset-to-default, critical section, slab deletion after "
                 "unlock)/ReleaseObjectAux, Drain, ObjectSlab free lists (PopObjectNode/PushObjectNode/InitializeObjectNode), slab list order, "
                 "_curPoolSize, the conditions of PerformSanityCheck; the link between heap life-cycle states and free lists.  "
-                "Not modelled: Neutralize, Clone/EnsureRefIsPrivate, Prefill, SetMaxPoolSize, error-status payload of null refs, the "
+                "Neutralize (= stop-counting conversion of the slot onto itself, then Reset of the non-counting slot).  Not modelled: Clone/EnsureRefIsPrivate, Prefill, SetMaxPoolSize, error-status payload of null refs, the "
                 "_prev/_next pointer representation of the slab list (the harness checks it describes the same sequence), references "
                 "shared between threads through mutex-protected containers (threads share objects through references copied at creation).")
     premises = ["std::atomic increment / decrement-and-test are atomic and sequentially consistent; std::mutex excludes "
@@ -128,7 +132,7 @@ class CHECK(vlib.Check):
                 "variables and member Refs of objects private to it (IsRefPrivate), and stores no reference to an object into itself",
                 "allocator: operator new returns memory not in use; _maxPoolSize + NUM_OBJECTS_PER_SLAB < 2^32 (saturation not modelled)"]
     rule = ("single-threaded histories over %d stack Ref slots and %d member Ref slots per object (new heap/pooled, assign, "
-            "non-counting alias, reset, swap, const-cast, payload write, drain) generated from random.Random(seed) with slab sizes 1..4 and "
+            "non-counting alias, Neutralize, reset, swap, const-cast, payload write, drain) generated from random.Random(seed) with slab sizes 1..4 and "
             "_maxPoolSize 0..4; after EVERY operation the destruction/recycle/obtain events in order, every object's state, "
             "count, payload, members and birth/death counters, the stack, and the pool's slab order, free lists, "
             "_numNodesInUse, _nextIndex arrays and _curPoolSize are compared with the extracted model; the harness's own "
@@ -183,6 +187,9 @@ class CHECK(vlib.Check):
                     out.append(("directed-alias", hdr + ";".join([kind + ":0", "al:s0:s0", "np:1", "as:s2:s0", "cc:s3:s0", "al:s3:s2", "as:s0:s0", "rs:s2"])))
                     out.append(("directed-alias", hdr + ";".join([kind + ":0", kind + ":1", "al:m0.0:s1", "as:m0.1:s1", "al:m0.1:s1", "as:m0.0:s1", "rs:s1", "rs:s0", "np:2"])))
                     out.append(("directed-alias", hdr + ";".join([kind + ":0", "al:s1:s0", "sw:s0:s1", "as:s2:s1", "rs:s1", "as:s0:s2", "cc:s0:s2", "rs:s2", "rs:s0"])))
+                    # Neutralize: the count goes, the object stays (until somebody adopts it again)
+                    out.append(("directed-alias", hdr + ";".join([kind + ":0", "as:s1:s0", "ne:s0", "ne:s0", "rs:s1", kind + ":2", "al:s3:s2", "ne:s2", "as:s1:s3", "rs:s1"])))
+                    out.append(("directed-alias", hdr + ";".join([kind + ":0", kind + ":1", "as:m0.0:s1", "ne:m0.0", "ne:s1", "rs:s0", "np:2", "np:3"])))
         # directed: slab creation, recycling, deletion boundaries
         for N in (1, 2, 3, 4):
             for mx in (0, 1, 2, 4):
